@@ -740,4 +740,278 @@ theorem sources_accts {R : List Resource} {V : List BVal} {env : VEnv} (cx : Ctx
             simpa [sourcesAccts, List.append_assoc] using ih2
 end
 
+/-! ### what each statement records -/
+
+theorem assetOf_mon (s : Asset) (n : Int) : assetOf (.mon s n) = some s := rfl
+theorem assetOf_asset (s : Asset) : assetOf (.asset s) = some s := rfl
+
+/-- the sources of a source allotment: each records its accounts against the monetary of the send -/
+theorem allotSources_needed {R : List Resource} {V : List BVal} {env : VEnv} (cx : Ctx R V env) {pa : Code} {m : Addr} {s0 : Asset}
+    (hm : ∃ v, V[m]? = some v ∧ assetOf v = some s0)
+    {items : List (PortionSpec × Source)} {st st' : CState} {i : Nat} {c : Code}
+    (hmt : HasTy st.resources m .monetary)
+    (hv : visitAllotSources st pa m items i = .ok (c, st')) (hsub : Sub st' R) (hidx : VarIdxOK st) :
+    NewPairs V st st' ((items.flatMap (fun it => sourceAccts env it.2)).map (fun x => (x, s0))) := by
+  induction items generalizing st i c with
+  | nil =>
+    simp only [visitAllotSources, Except.ok.injEq, Prod.mk.injEq] at hv
+    obtain ⟨_, rfl⟩ := hv
+    simpa using NewPairs.of_nd (V := V) (NdEq.refl st)
+  | cons it rest ih =>
+    obtain ⟨p, s⟩ := it
+    simp only [visitAllotSources] at hv
+    split at hv
+    · cases hv
+    · rename_i so hso
+      split at hv
+      · cases hv
+      · rename_i c1 st1 h1
+        split at hv
+        · cases hv
+        · rename_i c2 st2 h2
+          simp only [Except.ok.injEq, Prod.mk.injEq] at hv
+          obtain ⟨_, rfl⟩ := hv
+          obtain ⟨hs1, hs2⟩ := visitSource_ok hso
+          have eN := Ext.setNeeded so.st so.needed m hs2 (Or.inr (hs1.hasTy hmt))
+          have e1 := hs1.trans (eN.trans (emitSeq_ext h1))
+          have e2 := visitAllotSources_ext (e1.hasTy hmt) h2
+          have hsubS : Sub so.st R := (hsub.of_ext e2).of_ext (eN.trans (emitSeq_ext h1))
+          have hacc := source_accts cx hso hsubS hidx
+          have hA : NewPairs V st st1 ((sourceAccts env s).map (fun x => (x, s0))) :=
+            ((newPairs_setNeeded so.st hacc hm).nd_left (visitSource_nd hso)).nd_right (emitSeq_nd h1)
+          have hB := ih (e1.hasTy hmt) h2 (e1.varIdxOK hidx)
+          have := hA.trans hB
+          simpa [List.flatMap_cons] using this
+
+theorem stmt_needed {R : List Resource} {V : List BVal} {env : VEnv} (cx : Ctx R V env) {st st' : CState} {s : Stmt} {c : Code}
+    (hv : visitStmt st s = .ok (c, st')) (hsub : Sub st' R) (hidx : VarIdxOK st) :
+    NewPairs V st st' (neededOf env s) := by
+  cases s with
+  | fail =>
+    simp only [visitStmt, Except.ok.injEq, Prod.mk.injEq] at hv
+    obtain ⟨_, rfl⟩ := hv
+    exact NewPairs.of_nd (NdEq.refl _)
+  | print e =>
+    simp only [visitStmt] at hv
+    split at hv
+    · cases hv
+    · rename_i o ho
+      simp only [Except.ok.injEq, Prod.mk.injEq] at hv
+      obtain ⟨_, rfl⟩ := hv
+      exact NewPairs.of_nd (visitExpr_nd ho)
+  | setTxMeta key v =>
+    simp only [visitStmt] at hv
+    split at hv
+    · cases hv
+    · rename_i o ho
+      split at hv
+      · cases hv
+      · rename_i k st1 hk
+        simp only [Except.ok.injEq, Prod.mk.injEq] at hv
+        obtain ⟨_, rfl⟩ := hv
+        exact NewPairs.of_nd ((visitExpr_nd ho).trans (allocRes_nd hk))
+  | setAccountMeta acc key v =>
+    simp only [visitStmt] at hv
+    split at hv
+    · cases hv
+    · rename_i o ho
+      split at hv
+      · cases hv
+      · rename_i k st1 hk
+        split at hv
+        · cases hv
+        · rename_i aA c2 st2 h2
+          simp only [Except.ok.injEq, Prod.mk.injEq] at hv
+          obtain ⟨_, rfl⟩ := hv
+          exact NewPairs.of_nd ((visitExpr_nd ho).trans ((allocRes_nd hk).trans (visitTyped_nd h2)))
+  | saveMon e acc =>
+    simp only [visitStmt] at hv
+    split at hv
+    · cases hv
+    · rename_i mA c1 st1 hm
+      split at hv
+      · cases hv
+      · rename_i aA c2 st2 h2
+        simp only [Except.ok.injEq, Prod.mk.injEq] at hv
+        obtain ⟨_, rfl⟩ := hv
+        have hsub2 : Sub st2 R := hsub
+        obtain ⟨he1, _⟩ := visitTyped_ok hm
+        obtain ⟨he2, _⟩ := visitTyped_ok h2
+        obtain ⟨_, s0, n0, hla, hVm⟩ := monTyped_ok cx hm (hsub2.of_ext he2) hidx (visitTyped_noPortion hm (by decide))
+        obtain ⟨x, hx, hVa⟩ := acctAddr_ok cx h2 hsub2 (he1.varIdxOK hidx) (visitTyped_noPortion h2 (by decide))
+        have hacc : AcctsOf V [aA] [x] := by
+          intro y
+          simp only [List.mem_singleton]
+          constructor
+          · rintro rfl; exact ⟨aA, rfl, hVa⟩
+          · rintro ⟨a', rfl, h'⟩; rw [hVa] at h'; cases h'; rfl
+        have := (newPairs_setNeeded st2 hacc ⟨_, hVm, assetOf_mon s0 n0⟩).nd_left ((visitTyped_nd hm).trans (visitTyped_nd h2))
+        simpa [neededOf, hla, hx] using this
+  | saveAll ae acc =>
+    simp only [visitStmt] at hv
+    split at hv
+    · cases hv
+    · rename_i sA c1 st1 hm
+      split at hv
+      · cases hv
+      · rename_i aA c2 st2 h2
+        simp only [Except.ok.injEq, Prod.mk.injEq] at hv
+        obtain ⟨_, rfl⟩ := hv
+        have hsub2 : Sub st2 R := hsub
+        obtain ⟨he1, _⟩ := visitTyped_ok hm
+        obtain ⟨he2, _⟩ := visitTyped_ok h2
+        obtain ⟨s0, hs0, hVs⟩ := assetAddr_ok cx hm (hsub2.of_ext he2) hidx (visitTyped_noPortion hm (by decide))
+        obtain ⟨x, hx, hVa⟩ := acctAddr_ok cx h2 hsub2 (he1.varIdxOK hidx) (visitTyped_noPortion h2 (by decide))
+        have hacc : AcctsOf V [aA] [x] := by
+          intro y
+          simp only [List.mem_singleton]
+          constructor
+          · rintro rfl; exact ⟨aA, rfl, hVa⟩
+          · rintro ⟨a', rfl, h'⟩; rw [hVa] at h'; cases h'; rfl
+        have := (newPairs_setNeeded st2 hacc ⟨_, hVs, assetOf_asset s0⟩).nd_left ((visitTyped_nd hm).trans (visitTyped_nd h2))
+        simpa [neededOf, hs0, hx] using this
+  | send amt src d =>
+    simp only [visitStmt] at hv
+    split at hv
+    · cases hv
+    · rename_i c1 st1 hsrc
+      split at hv
+      · cases hv
+      · rename_i c2 st2 hdst
+        simp only [Except.ok.injEq, Prod.mk.injEq] at hv
+        obtain ⟨_, rfl⟩ := hv
+        have hsub2 : Sub st2 R := hsub
+        have hed := visitDestination_ext hdst
+        have hsub1 : Sub st1 R := hsub2.of_ext hed
+        refine NewPairs.nd_right ?_ (visitDestination_nd hdst)
+        cases amt with
+        | mon e =>
+          cases src with
+          | src sc =>
+            simp only [visitSendSource] at hsrc
+            split at hsrc
+            · cases hsrc
+            · rename_i mA c0 stA hm
+              split at hsrc
+              · cases hsrc
+              · rename_i so hso
+                split at hsrc
+                · cases hsrc
+                · rename_i eo heo
+                  split at hsrc
+                  · cases hsrc
+                  · rename_i ct stT hct
+                    simp only [Except.ok.injEq, Prod.mk.injEq] at hsrc
+                    obtain ⟨_, rfl⟩ := hsrc
+                    obtain ⟨heA, tA⟩ := visitTyped_ok hm
+                    obtain ⟨heS, aS⟩ := visitSource_ok hso
+                    have heN := Ext.setNeeded so.st so.needed mA aS (Or.inr (heS.hasTy tA))
+                    have heE := visitExpr_ext heo
+                    have heT := emitSeq_ext hct
+                    have hsubS : Sub so.st R := ((hsub1.of_ext heT).of_ext heE).of_ext heN
+                    have hsubA : Sub stA R := hsubS.of_ext heS
+                    obtain ⟨_, a0, n0, hla, hVm⟩ := monTyped_ok cx hm hsubA hidx (visitTyped_noPortion hm (by decide))
+                    have hacc := source_accts cx hso hsubS (heA.varIdxOK hidx)
+                    have := ((newPairs_setNeeded so.st hacc ⟨_, hVm, assetOf_mon a0 n0⟩).nd_left
+                      ((visitTyped_nd hm).trans (visitSource_nd hso))).nd_right ((visitExpr_nd heo).trans (emitSeq_nd hct))
+                    simpa [neededOf, hla, vsourceAccts] using this
+          | allot items =>
+            simp only [visitSendSource] at hsrc
+            split at hsrc
+            · cases hsrc
+            · rename_i mA c0 stA hm
+              split at hsrc
+              · cases hsrc
+              · rename_i eo heo
+                split at hsrc
+                · cases hsrc
+                · rename_i ca stB hal
+                  split at hsrc
+                  · cases hsrc
+                  · rename_i cs stC has
+                    split at hsrc
+                    · cases hsrc
+                    · rename_i cf stD hfin
+                      simp only [Except.ok.injEq, Prod.mk.injEq] at hsrc
+                      obtain ⟨_, rfl⟩ := hsrc
+                      obtain ⟨heA, tA⟩ := visitTyped_ok hm
+                      have heE := visitExpr_ext heo
+                      have heL := visitAllotment_ext hal
+                      have hmB : HasTy stB.resources mA .monetary := heL.hasTy (heE.hasTy tA)
+                      have heS := visitAllotSources_ext hmB has
+                      have heF := emitSeq_ext hfin
+                      have hsubC : Sub stC R := hsub1.of_ext heF
+                      have hsubA : Sub stA R := ((hsubC.of_ext heS).of_ext heL).of_ext heE
+                      obtain ⟨_, a0, n0, hla, hVm⟩ := monTyped_ok cx hm hsubA hidx (visitTyped_noPortion hm (by decide))
+                      have hidxB : VarIdxOK stB := (heA.trans (heE.trans heL)).varIdxOK hidx
+                      have := ((allotSources_needed cx ⟨_, hVm, assetOf_mon a0 n0⟩ hmB has hsubC hidxB).nd_left
+                        ((visitTyped_nd hm).trans ((visitExpr_nd heo).trans (visitAllotment_nd hal)))).nd_right (emitSeq_nd hfin)
+                      simpa [neededOf, hla, vsourceAccts] using this
+        | all ae =>
+          cases src with
+          | src sc =>
+            simp only [visitSendSource] at hsrc
+            split at hsrc
+            · cases hsrc
+            · rename_i aA c0 stA hm
+              split at hsrc
+              · cases hsrc
+              · rename_i so hso
+                simp only [Except.ok.injEq, Prod.mk.injEq] at hsrc
+                obtain ⟨_, rfl⟩ := hsrc
+                obtain ⟨heA, tA⟩ := visitTyped_ok hm
+                obtain ⟨heS, aS⟩ := visitSource_ok hso
+                have hsubS : Sub so.st R := hsub1
+                have hsubA : Sub stA R := hsubS.of_ext heS
+                obtain ⟨a0, ha0, hVa⟩ := assetAddr_ok cx hm hsubA hidx (visitTyped_noPortion hm (by decide))
+                have hacc := source_accts cx hso hsubS (heA.varIdxOK hidx)
+                have := (newPairs_setNeeded so.st hacc ⟨_, hVa, assetOf_asset a0⟩).nd_left
+                  ((visitTyped_nd hm).trans (visitSource_nd hso))
+                simpa [neededOf, ha0, vsourceAccts] using this
+          | allot items =>
+            simp only [visitSendSource] at hsrc
+            split at hsrc
+            · cases hsrc
+            · cases hsrc
+
+theorem stmts_needed {R : List Resource} {V : List BVal} {env : VEnv} (cx : Ctx R V env) {st st' : CState} {ss : List Stmt} {c : Code}
+    (hv : visitStmts st ss = .ok (c, st')) (hsub : Sub st' R) (hidx : VarIdxOK st) :
+    NewPairs V st st' (needed env ss) := by
+  induction ss generalizing st c with
+  | nil =>
+    simp only [visitStmts, Except.ok.injEq, Prod.mk.injEq] at hv
+    obtain ⟨_, rfl⟩ := hv
+    exact NewPairs.of_nd (NdEq.refl _)
+  | cons s rest ih =>
+    simp only [visitStmts] at hv
+    split at hv
+    · cases hv
+    · rename_i c1 st1 h1
+      split at hv
+      · cases hv
+      · rename_i c2 st2 h2
+        simp only [Except.ok.injEq, Prod.mk.injEq] at hv
+        obtain ⟨_, rfl⟩ := hv
+        have he2 := visitStmts_ext h2
+        have he1 := visitStmt_ext h1
+        have hA := stmt_needed cx h1 (hsub.of_ext he2) hidx
+        have hB := ih h2 (he1.varIdxOK hidx)
+        have := hA.trans hB
+        simpa [needed, List.flatMap_cons] using this
+
+/-- **`NeededBalances`, resolved, is `Spec.needed`** -/
+theorem compile_needed {P : Script} {prog : Program} (hc : compile P = .ok prog) {V : List BVal} {env : VEnv}
+    (cx : Ctx prog.resources V env) (acct : Acct) (asset : Asset) :
+    NeedPair V prog.needed acct asset ↔ (acct, asset) ∈ needed env P.stmts := by
+  obtain ⟨st0, code, st, h0, h1, rfl⟩ := compile_parts hc
+  have hidx : VarIdxOK st0 := visitVarList_idxOK (by intro n a hl; simp [lookupIdx] at hl) h0
+  have hnd0 : st0.needed = [] := visitVarList_nd h0
+  have := stmts_needed cx h1 (fun _ _ h => h) hidx acct asset
+  rw [this, hnd0]
+  constructor
+  · rintro (⟨a, x, ⟨e, he, _⟩, _⟩ | h)
+    · cases he
+    · exact h
+  · exact Or.inr
+
 end Num
